@@ -227,7 +227,11 @@ func (r *Run) racePass() {
 	}(), 10, 64)
 	switch parts[0] {
 	case "ok":
-		r.AddPart(Part{Name: "free-running -race pass", Engine: "go test -race (real goroutines, real sync)", Bound: "samples schedules; supplements the controlled exploration, decides nothing", Executions: n, Exhaustive: true, Note: "no data race reported, end-state invariants held"})
+		note := "no data race between repository code reported, end-state invariants held"
+		if len(parts) > 2 {
+			note += " (race reports: " + parts[2] + "; harness = a side of the race is harness bookkeeping, outofscope = listed in race_out_of_scope.json)"
+		}
+		r.AddPart(Part{Name: "free-running -race pass", Engine: "go test -race (real goroutines, real sync)", Bound: "samples schedules; supplements the controlled exploration, decides nothing", Executions: n, Exhaustive: true, Note: note})
 	case "fail":
 		log := ""
 		if len(parts) > 2 {
@@ -235,7 +239,7 @@ func (r *Run) racePass() {
 		}
 		r.Violation(Violation{Part: "free-running -race pass", Kind: "data-race-or-invariant", Site: "race detector", Detail: "the free-running -race pass reported a data race or a failed end-state invariant; log: " + log})
 	case "buildfail":
-		r.HarnessError("-race build of the harness failed")
+		r.HarnessError("-race build of the harness failed or the free-running pass crashed")
 	}
 }
 
